@@ -39,6 +39,7 @@ func Run(m *mon.M) {
 	})
 	m.Stream("polygon", m.N(2000, 100000), polygonCase)
 	m.Stream("tiling", m.N(600, 20000), func(c *mon.Case) { tilingCase(c, m.N(2, 3)) })
+	m.Stream("tiling.local", m.N(20000, 1000000), localTilingCase)
 }
 
 func probesFor(r *rand.Rand, sp gen.LoopSpec, nb, nc int) (ps []s2.Point, boundary []bool) {
@@ -417,7 +418,76 @@ func polygonCase(c *mon.Case) {
 			c.Violation("Polygon/IsHole/wrong-answer", fmt.Sprintf("loop %d: IsHole=%v but %d other loops enclose it", k, l.IsHole(), enc), map[string]any{"loops": len(loops), "order": order, "vertex": gen.Hex(v)})
 		}
 	}
+	// the same (already queried, indexed) polygon inverted in place, and inverted back: every answer follows
+	if c.I%2 == 0 {
+		for round, flip := range []bool{true, false} {
+			poly.Invert()
+			for i, p := range ps {
+				if got := poly.ContainsPoint(p); got != (want[i] != flip) {
+					c.Violation("Polygon/Invert-in-place-after-queries/ContainsPoint/wrong-answer", fmt.Sprintf("after %d in-place Invert() of a polygon that had answered queries, ContainsPoint=%v, parity says %v", round+1, got, want[i] != flip), det(i, got))
+					break
+				}
+			}
+		}
+		c.Count("polygon.inverted_in_place_after_queries", 1)
+	}
 	_ = math.Pi
+}
+
+// localTilingCase: a cell of any level 1..30 (one in two next to a face edge or cube corner) together with
+// all its neighbours of that level tiles a neighbourhood of the cell: every point of the closed cell - its
+// vertices, points of its edges, its centre - is contained by exactly one of these cell loops. Across a face
+// edge this needs the two faces to compute bit-identical corner points.
+func localTilingCase(c *mon.Case) {
+	r := c.R
+	lvl := 1 + r.Intn(30)
+	var id s2.CellID
+	if r.Intn(2) == 0 {
+		id = s2.CellFromPoint(gen.OnPlane(r, 3+r.Intn(6))).ID().Parent(lvl)
+	} else {
+		id = gen.RandCellID(r, lvl)
+	}
+	ids := append([]s2.CellID{id}, id.AllNeighbors(lvl)...)
+	seen := map[s2.CellID]bool{}
+	var loops []*s2.Loop
+	var toks []string
+	faces := map[int]bool{}
+	for _, x := range ids {
+		if seen[x] {
+			continue
+		}
+		seen[x] = true
+		loops = append(loops, s2.LoopFromCell(s2.CellFromCellID(x)))
+		toks = append(toks, x.ToToken())
+		faces[x.Face()] = true
+	}
+	if len(faces) > 1 {
+		c.Count("tiling.local.across_faces", 1)
+	}
+	cell := s2.CellFromCellID(id)
+	var ps []s2.Point
+	for k := 0; k < 4; k++ {
+		a, b := cell.Vertex(k), cell.Vertex((k+1)%4)
+		t := r.Float64()
+		ps = append(ps, a, s2.Point{Vector: a.Mul(1 - t).Add(b.Mul(t)).Normalize()})
+	}
+	ps = append(ps, cell.Center())
+	for _, p := range ps {
+		cnt := 0
+		var who []string
+		for i, l := range loops {
+			if l.ContainsPoint(p) {
+				cnt++
+				who = append(who, toks[i])
+			}
+		}
+		c.Count("tiling.local.probes", 1)
+		c.Distinct(append(gen.Bits(p), uint64(lvl))...)
+		if cnt != 1 {
+			c.Violation("tiling/cell-and-its-neighbours/not-exactly-once/wrong-answer", fmt.Sprintf("a point of the closed cell %s is contained by %d of the loops of the cell and its %d neighbours of level %d", id.ToToken(), cnt, len(loops)-1, lvl), map[string]any{"level": lvl, "cell": id.ToToken(), "probe": gen.Hex(p), "containing": who, "faces": len(faces)})
+			break
+		}
+	}
 }
 
 // tilingCase: all cells of one level (as loops); every probe is in exactly one.
